@@ -92,7 +92,7 @@ def lift(t, dtype=None):
     if isinstance(t, SymTensor):
         return t
     with torch._C.DisableTorchFunctionSubclass():
-        t = t.detach()
+        t = t.detach().resolve_conj().resolve_neg()
         dt = t.dtype
         if dt.is_complex:
             re = as_oarr(t.real.contiguous().numpy().astype(np.float64))
